@@ -8,6 +8,7 @@
  * add MurmurHashNative
  * default option = 0 for seed
  * ARM port from NICT
+ * unaligned loads through memcpy on every platform
  */
 
 #include "util/murmur_hash.hh"
@@ -30,24 +31,17 @@ uint64_t MurmurHash64A ( const void * key, std::size_t len, uint64_t seed )
 
   uint64_t h = seed ^ (len * m);
 
-#if defined(__arm) || defined(__arm__)
+  // The key has no particular alignment: load the blocks with memcpy (a plain
+  // mov on x86) instead of dereferencing a possibly misaligned uint64_t pointer.
   const size_t ksize = sizeof(uint64_t);
   const unsigned char * data = (const unsigned char *)key;
   const unsigned char * end = data + (std::size_t)(len/8) * ksize;
-#else
-  const uint64_t * data = (const uint64_t *)key;
-  const uint64_t * end = data + (len/8);
-#endif
 
   while(data != end)
   {
-#if defined(__arm) || defined(__arm__)
     uint64_t k;
     memcpy(&k, data, ksize);
     data += ksize;
-#else
-    uint64_t k = *data++;
-#endif
 
     k *= m;
     k ^= k >> r;
@@ -89,25 +83,16 @@ uint64_t MurmurHash64B ( const void * key, std::size_t len, uint64_t seed )
   unsigned int h1 = seed ^ len;
   unsigned int h2 = 0;
 
-#if defined(__arm) || defined(__arm__)
   size_t ksize = sizeof(unsigned int);
   const unsigned char * data = (const unsigned char *)key;
-#else
-  const unsigned int * data = (const unsigned int *)key;
-#endif
 
   unsigned int k1, k2;
   while(len >= 8)
   {
-#if defined(__arm) || defined(__arm__)
     memcpy(&k1, data, ksize);
     data += ksize;
     memcpy(&k2, data, ksize);
     data += ksize;
-#else
-    k1 = *data++;
-    k2 = *data++;
-#endif
 
     k1 *= m; k1 ^= k1 >> r; k1 *= m;
     h1 *= m; h1 ^= k1;
@@ -120,12 +105,8 @@ uint64_t MurmurHash64B ( const void * key, std::size_t len, uint64_t seed )
 
   if(len >= 4)
   {
-#if defined(__arm) || defined(__arm__)
     memcpy(&k1, data, ksize);
     data += ksize;
-#else
-    k1 = *data++;
-#endif
     k1 *= m; k1 ^= k1 >> r; k1 *= m;
     h1 *= m; h1 ^= k1;
     len -= 4;
